@@ -14,7 +14,7 @@
      by what the map, the lists and the queues can hold.
    * `C04_sync_count` (the first half of `boundC04Sync`): at every snapshot
      `|entries| ≤ entry_count + |write queue| (+ 1)`.
-   * `C04_sync`: the *corrected* capacity oracle `Spec.oracleC04'` (defined at the end of
+   * `C04_sync`: the *corrected* capacity oracle `Spec.oracleC04` (defined at the end of
      `Lemmas/SyncCounters.lean`): the count bound at every snapshot, and at every quiescent
      snapshot right after `sync` the residents weigh at most `max_capacity` unless that run
      removed a full eviction batch (`SYNC_EVICTION_BATCH_SIZE` = 500 entries), measured against
@@ -244,15 +244,15 @@ theorem C04_sync_after_sync (p : Params) (hq : Sync.NoQuirks p) (hsm : SmallSket
   syncRun_weight hq hsm (stateAfter_t hq hsm h (init_t p)) hcap
 
 /-- C04 on the concurrent cache driven by one thread, for the corrected oracle
-`Spec.oracleC04'`: for every configuration of the current code and every history,
+`Spec.oracleC04`: for every configuration of the current code and every history,
 every snapshot shows at most `entry_count + |write queue| + 1` entries, and every snapshot
 taken right after `sync` with both queues empty shows residents weighing at most
 `max_capacity`, unless that maintenance run removed a full batch of
 `SYNC_EVICTION_BATCH_SIZE` entries (the excess left by updates that made entries heavier is
 worked off one batch per run). -/
 theorem C04_sync (p : Params) (hq : Sync.NoQuirks p) (hsm : SmallSketch p) (h : List Op) :
-    Spec.oracleC04' .sync p.cap (Sync.trace p h) = true := by
-  unfold Spec.oracleC04'
+    Spec.oracleC04 .sync p.cap (Sync.trace p h) = true := by
+  unfold Spec.oracleC04
   cases hcap : p.cap with
   | none => rfl
   | some c =>
@@ -279,7 +279,7 @@ example : Spec.oracleC10 .sync c10Params.weigh (Sync.trace c10Params c10History)
 example : Spec.oracleC11 (Sync.trace c10Params c10History) = true := by
   decide +kernel
 
-example : Spec.oracleC04' .sync c10Params.cap (Sync.trace c10Params c10History) = true := by
+example : Spec.oracleC04 .sync c10Params.cap (Sync.trace c10Params c10History) = true := by
   decide +kernel
 
 /-- What the quiescent snapshots of that trace show: `(entries, entry_count, weighted_size,
@@ -318,16 +318,16 @@ def heavySnap : Snap :=
 /-- The corrected oracle rejects a maintenance run that leaves excess behind without having
 removed anything: capacity 3, one resident of weight 5 before and after `sync`; with and
 without a snapshot before the `sync`. -/
-example : Spec.oracleC04' .sync (some 3)
+example : Spec.oracleC04 .sync (some 3)
     [(.ins 1 5, .ok), (.snap, .snap heavySnap), (.sync, .ok), (.snap, .snap heavySnap)] = false := by
   decide
 
-example : Spec.oracleC04' .sync (some 3)
+example : Spec.oracleC04 .sync (some 3)
     [(.ins 1 5, .ok), (.sync, .ok), (.snap, .snap heavySnap)] = false := by
   decide
 
 /-- … and a map that holds more entries than `entry_count + |write queue| + 1`. -/
-example : Spec.oracleC04' .sync (some 3)
+example : Spec.oracleC04 .sync (some 3)
     [(.snap, .snap { heavySnap with ec := 0, entries := heavySnap.entries ++ heavySnap.entries })]
       = false := by
   decide
@@ -348,7 +348,7 @@ tolerance `entries.length > 400` does not apply.
     def h (n : Nat) : List Op :=
       (List.range n).map (fun k => Op.ins k 0) ++ [.sync, .snap, .ins 0 1000000, .sync, .snap]
     #eval Spec.oracleC04  .sync p.cap (Sync.trace p (h 501))   -- false   (also for h 850)
-    #eval Spec.oracleC04' .sync p.cap (Sync.trace p (h 501))   -- true    (also for h 850)
+    #eval Spec.oracleC04 .sync p.cap (Sync.trace p (h 501))   -- true    (also for h 850)
 
 `theorem : Spec.oracleC04 .sync p.cap (Sync.trace p (h 501)) = false := by decide +kernel`
 is accepted by the kernel (checked once, 2026-09-24) but takes about 7 minutes, and no smaller
